@@ -203,6 +203,8 @@ def check_C17(report: common.Report):
             kinds[name] = kinds.get(name, 0) + 1
     report.set('faulted_call_kinds', kinds)
     report.sample({'scenario': traces[0]['scenario'], 'line': {k: v for k, v in traces[0]['lines'][2].items() if k != 'views'}})
+    from . import maintconf  # pylint: disable=import-outside-toplevel
+    maintconf.check(report)
 
 
 def replay(data) -> int:
